@@ -489,8 +489,8 @@ class _Folder:
         m: Optional[FuncInfo] = None
         bound: Dict[str, ast.expr] = {}
         sym = self.prog.resolve_expr_symbol(self.mod, f)
-        if isinstance(sym, FuncInfo) and sym.cls is None and sym.parent is None:
-            m = sym
+        if isinstance(sym, FuncInfo) and sym.cls is None and sym.parent is None and sym.module is self.fn.module:
+            m = sym         # (helpers of other modules keep their name: the rules know the package's utilities by it)
         elif isinstance(f, ast.Attribute):
             owner = self.prog.resolve_expr_symbol(self.mod, f.value) if isinstance(f.value, (ast.Name, ast.Attribute)) else None
             if isinstance(owner, ClassInfo):
